@@ -54,6 +54,9 @@ func (Engine) Generate(prop, tier string, run int, seed uint64) *kernel.Scenario
 		}
 		return genC08(r)
 	case "C12":
+		if r.Bool(0.12) {
+			return genC12Pair(r)
+		}
 		return genC12(r)
 	case "C07":
 		if r.Bool(0.35) {
@@ -76,6 +79,9 @@ func (Engine) Execute(t *testing.T, sc *kernel.Scenario, trace bool) *kernel.Res
 		}
 		return execC08(t, sc, trace)
 	case "C12":
+		if sc.Cfg("pairfault", 0) == 1 {
+			return execC12Pair(t, sc, trace)
+		}
 		return execC12(t, sc, trace)
 	case "C07":
 		if sc.Cfg("trio", 0) == 1 {
